@@ -62,7 +62,7 @@ def run(ctx):
     quick = ctx.tier == "quick"
     ctx.rule = ("structured generation: ids from {0,1,0x7FFF,0x8000,0xFFFE,0xFFFF} + random, every message type x return code, payload "
                 "lengths {0,1,2,7,8,9,15,16,17,255,256,4095,4096,65527..65537} + random, suffixes (empty / random / valid message / "
-                "corrupted message), 1-12 messages per datagram, out-of-width fields, header mutations (version/type/code/length); sequences of datagrams "
+                "corrupted message), 1-12 messages per datagram and 63 - 4000 messages in one datagram, out-of-width fields, header mutations (version/type/code/length); sequences of datagrams "
                 "of several senders through ONE protocol object with identical messages and messages repeating the ids of their predecessor; "
                 "a case is non-trivial when it is a distinct (kind, input) whose build or parse succeeds or fails with a classified error")
     ctx.assumptions = ["messages are values of the library's own types (enum-typed message type / return code); payload bytes"]
@@ -195,6 +195,22 @@ def run(ctx):
             impl.append([got, None])
             descr.append(("datagram-seq", k))
             ctx.case(("dgs", k, before, data), kind="datagram-repeats")
+    # MANY messages in one datagram (a 1472-byte frame holds 92 header-only messages; nothing bounds the count)
+    for n_msgs_dg in ([63, 64, 65, 92, 200] if quick else [63, 64, 65, 66, 92, 128, 200, 1000, 4000]):
+        for variant in range(2):
+            ms = [gen.message(r2, maxlen=0 if variant == 0 else 6) for _ in range(n_msgs_dg)]
+            data = b"".join(bytes(m.build()) for m in ms)
+            rec = Recorder()
+            rec.datagram_received(data, ("10.0.0.9", 30490), variant == 1)
+            got = [conv.s_msg(m) for m in rec.got]
+            if got != [conv.s_msg(m) for m in ms]:
+                ctx.violation("datagram_received did not deliver exactly the concatenated messages in order (many messages in one datagram)",
+                              dict(messages=n_msgs_dg, delivered=len(got), datagram=data.hex()[:2000]))
+            if n_msgs_dg <= 200:
+                cases.append((103, data))
+                impl.append([got, None])
+                descr.append(("datagram-many", n_msgs_dg))
+            ctx.case(("dgm", n_msgs_dg, variant, data[:64]), kind="datagram-many-messages")
     outs = compare(ctx, cases, impl, "SOMEIPHeader build/parse/datagram loop differs from Model/Someip.v", lambda i: repr(descr[i]))
     # layout: implementation bytes versus the extracted Gallina spec_layout
     lay = ctx.model.batch([(111, sm) for _, sm, _ in layout_cases])
